@@ -176,6 +176,18 @@ def run_history(dirpath, pool, job):
     return {"id": job["id"], "steps": steps}
 
 
+def tree_fingerprint(root):
+    """identifies the source tree that was imported (the check refuses to mix results of two trees)"""
+    h = hashlib.sha256()
+    for dp, dn, fs in sorted(os.walk(root)):
+        dn.sort()
+        for f in sorted(fs):
+            if f.endswith(".py"):
+                with open(os.path.join(dp, f), "rb") as fh:
+                    h.update(f.encode() + b"\0" + hashlib.sha256(fh.read()).digest())
+    return h.hexdigest()
+
+
 def main():
     req = json.load(sys.stdin)
     dirpath = req["dir"]
@@ -214,7 +226,8 @@ def main():
             os.unlink(out)
         except Exception:  # noqa
             results[i] = {"id": jobs[i]["id"], "steps": [], "crash": "child died, status %r" % (status,)}
-    print(json.dumps({"base": base, "hashseed": os.environ.get("PYTHONHASHSEED"), "results": results}))
+    print(json.dumps({"base": base, "hashseed": os.environ.get("PYTHONHASHSEED"), "results": results,
+                      "tree": tree_fingerprint(os.path.dirname(os.path.abspath(cohdl.__file__)))}))
 
 
 if __name__ == "__main__":
